@@ -14,6 +14,7 @@ import (
 	"gitlab.com/gomidi/midi/v2"
 	cc "gitlab.com/gomidi/midi/v2/internal/verifh/conccases"
 	cp "gitlab.com/gomidi/midi/v2/internal/verifh/concpairs"
+	"gitlab.com/gomidi/midi/v2/internal/verifh/disturb"
 	"gitlab.com/gomidi/midi/v2/internal/verifh/engine"
 	ls "gitlab.com/gomidi/midi/v2/internal/verifh/livespace"
 )
@@ -393,6 +394,7 @@ func bend(lp *loop, ch int, sendEvery int) {
 
 func main() {
 	ctx = engine.Start("C07", "exploration")
+	disturb.Install(ctx)
 	if ctx.ReplayPath != "" {
 		if cp.Replay(ctx, ctx.LoadReplay(), "constructors", cc.Ctors()) {
 			ctx.Finish("replay")
